@@ -82,22 +82,41 @@ def infer(traces_new, traces_reset):
         raise ValueError("FileId::new does not return the value it last read from the counter")
     k = len(ok_ins)
 
-    def same_shape(x, y, lo):
-        s = shape(x["ops"][lo:lo + k], y["ops"][lo:lo + k])
-        return s is not None and s[0] == ok_ins
+    def follows(ops, ins, reg=None):
+        """do these recorded operations follow the instruction list?  -> (True, last value read) or (False, None)"""
+        if len(ops) != len(ins):
+            return False, None
+        for o, (op, v) in zip(ops, ins):
+            kind = {"fa": "fetch_add", "ld": "load", "sc": "store", "sr": "store"}[op]
+            if o["kind"] != kind:
+                return False, None
+            if op == "fa" and o["operand"] != v:
+                return False, None
+            if op == "sc" and o["operand"] != v:
+                return False, None
+            if op == "sr" and (reg is None or o["operand"] != (reg + v) % W64):
+                return False, None
+            if op in ("fa", "ld"):
+                reg = o["read"]
+        return True, reg
 
-    if len(c["ops"]) == k and len(d["ops"]) == k and same_shape(a, c, 0) and same_shape(c, d, 0) \
-            and c["ret"] == shape(c["ops"], d["ops"])[1]:
+    c1, d1 = follows(c["ops"][:k], ok_ins), follows(d["ops"][:k], ok_ins)
+    if not (c1[0] and d1[0]):
+        raise ValueError("FileId::new behaves differently on a tagged counter value before its first test")
+    if len(c["ops"]) == k and len(d["ops"]) == k:
+        if c["ret"] != c1[1] or d["ret"] != d1[1]:
+            raise ValueError("FileId::new on a tagged counter value returns something it did not read")
         new = [(o, v, "n") for o, v in ok_ins[:-1]] + [(ok_ins[-1][0], ok_ins[-1][1], "r")]
     else:
         m = len(c["ops"]) - 2 * k
-        if m < 1 or len(d["ops"]) != len(c["ops"]) or not same_shape(c, d, 0) or not same_shape(c, d, k + m):
+        if m < 1 or len(d["ops"]) != len(c["ops"]):
             raise ValueError("the tagged path of FileId::new is not <attempt> <retry ops> <attempt>")
-        first = shape(c["ops"][:k], d["ops"][:k])
-        retry = shape(c["ops"][k:k + m], d["ops"][k:k + m], first[1], first[2])
-        last = shape(c["ops"][k + m:], d["ops"][k + m:])
-        if not retry or c["ret"] != last[1] or d["ret"] != last[2]:
-            raise ValueError("the retry path of FileId::new is not expressible")
+        retry = shape(c["ops"][k:k + m], d["ops"][k:k + m], c1[1], d1[1])
+        c3, d3 = follows(c["ops"][k + m:], ok_ins), follows(d["ops"][k + m:], ok_ins)
+        if not retry or not (c3[0] and d3[0]):
+            raise ValueError("the tagged path of FileId::new is not <attempt> <retry ops> <attempt>")
+        if c["ret"] != c3[1] or d["ret"] != d3[1]:
+            raise ValueError("FileId::new does not return the value it last read from the counter")
         new = [(o, v, "n") for o, v in ok_ins[:-1]] + [(ok_ins[-1][0], ok_ins[-1][1], "riu")]
         new += [(o, v, "n") for o, v in retry[0][:-1]] + [(retry[0][-1][0], retry[0][-1][1], "g0")]
     rr = [parse_trace(t) for t in traces_reset]
